@@ -124,3 +124,15 @@ theorem odd_pow_2_63 (q : ℤ) (hq : q % 2 = 1) :
     rw [← pow_mul]; norm_num
   rw [e]
   exact h2
+
+/-! ### Lemma over the contract of `Ring.Inverse` (property C15): the Fermat inverse -/
+
+/-- for a prime q and b not divisible by q, b * b^(q-2) is 1 modulo q -/
+theorem fermat_inverse (q : ℕ) (hq : q.Prime) (b : ℤ) (hb : IsCoprime b (q : ℤ)) :
+    b * b ^ (q - 2) ≡ 1 [ZMOD (q : ℤ)] := by
+  have h2 : 2 ≤ q := hq.two_le
+  have e : b * b ^ (q - 2) = b ^ (q - 1) := by
+    have : q - 1 = (q - 2) + 1 := by omega
+    rw [this, pow_succ]; ring
+  rw [e]
+  exact Int.ModEq.pow_card_sub_one_eq_one hq hb
